@@ -31,6 +31,7 @@ def alphabet(rng, a, mfs):
 
 class C05(PropBase):
     id = 'C05'
+    partial_passes = 0.25
     lean_modules = ['Isotp.Props.C05']
     agree = []
     theorems = ['Isotp.C05.processRx_no_raise']
